@@ -156,33 +156,48 @@ structure FindOut where
   thr : List (Nat × Rat)
 deriving Repr
 
+/-- `CostPromotionRungSystem._find_promotable_trial`. -/
+def findPromotableCost (thr : List (Nat × Rat)) (rg : Rung) (hint : Option Nat) : FindOut :=
+  if rg.data.length > 1 then
+    { pick := (costFirstPromotable ((rg.data.map (·.cost)).foldl (· + ·) 0 * rg.q)
+                ((rg.data.map (·.cost)).foldl (· + ·) 0) rg.level hint rg.data 0 0).1.map (fun x => (x.1.tid, x.2)),
+      free := (costFirstPromotable ((rg.data.map (·.cost)).foldl (· + ·) 0 * rg.q)
+                ((rg.data.map (·.cost)).foldl (· + ·) 0) rg.level hint rg.data 0 0).2,
+      thr := thr }
+  else { pick := none, free := false, thr := thr }
+
+/-- the quantile test on the candidate: `sign * (metric_val - cutoff) < 0` ⇒ not good enough,
+i.e. promotable iff no worse; a free comparison follows the implementation (`hint` = level it
+resumed from). -/
+def quantileTest (m : Mode) (rg : Rung) (c : Rat) (hint : Option Nat) (cand : Option (Entry × Nat))
+    (thr : List (Nat × Rat)) : FindOut :=
+  match cand with
+  | none => { pick := none, free := false, thr := thr }
+  | some ep =>
+    if (cmpNoWorse m ep.1.val c rg.scale).resolve (hint == some rg.level) then
+      { pick := some (ep.1.tid, ep.2), free := (cmpNoWorse m ep.1.val c rg.scale).isFree, thr := thr }
+    else { pick := none, free := (cmpNoWorse m ep.1.val c rg.scale).isFree, thr := thr }
+
+/-- `PromotionRungSystem._find_promotable_trial` (also PASHA); with `rush` the candidate scan is
+`RUSHPromotionRungSystem._is_promotable_trial`. -/
+def findPromotableQ (rush : Bool) (m : Mode) (numThr : Nat) (thr : List (Nat × Rat)) (rg : Rung)
+    (hint : Option Nat) : FindOut :=
+  match rg.cutoff m with
+  | none => { pick := none, free := false, thr := thr }
+  | some c =>
+    if rush then
+      quantileTest m rg c hint (rushFirstPromotable m numThr rg.level rg.data 0 thr).1
+        (rushFirstPromotable m numThr rg.level rg.data 0 thr).2
+    else quantileTest m rg c hint (firstUnpromoted rg.data 0) thr
+
 /-- `_find_promotable_trial` of `PromotionRungSystem` (also PASHA), `RUSHPromotionRungSystem`
 (via `_is_promotable_trial`) and `CostPromotionRungSystem`. -/
 def findPromotable (ty : HBType) (m : Mode) (numThr : Nat) (thr : List (Nat × Rat)) (rg : Rung)
     (hint : Option Nat) : FindOut :=
   match ty with
-  | .costPromotion =>
-    if rg.data.length > 1 then
-      let total := (rg.data.map (·.cost)).foldl (· + ·) 0
-      let r := costFirstPromotable (total * rg.q) total rg.level hint rg.data 0 0
-      { pick := r.1.map (fun x => (x.1.tid, x.2)), free := r.2, thr := thr }
-    else { pick := none, free := false, thr := thr }
-  | _ =>
-    match rg.cutoff m with
-    | none => { pick := none, free := false, thr := thr }
-    | some c =>
-      let cand : Option (Entry × Nat) × List (Nat × Rat) :=
-        if ty = .rushPromotion then rushFirstPromotable m numThr rg.level rg.data 0 thr
-        else (firstUnpromoted rg.data 0, thr)
-      match cand.1 with
-      | none => { pick := none, free := false, thr := cand.2 }
-      | some (e, pos) =>
-        -- `sign * (metric_val - cutoff) < 0` ⇒ not good enough, i.e. promotable iff no worse
-        let cmp := cmpNoWorse m e.val c rg.scale
-        -- a free comparison follows the implementation: `hint` = level it resumed from
-        if cmp.resolve (hint == some rg.level) then
-          { pick := some (e.tid, pos), free := cmp.isFree, thr := cand.2 }
-        else { pick := none, free := cmp.isFree, thr := cand.2 }
+  | .costPromotion => findPromotableCost thr rg hint
+  | .rushPromotion => findPromotableQ true m numThr thr rg hint
+  | _ => findPromotableQ false m numThr thr rg hint
 
 /-- `_mark_as_promoted`: pop position `pos`, set flag, re-insert (`SortedList.add`). -/
 def markPromoted (m : Mode) (rg : Rung) (pos : Nat) : Rung :=
